@@ -132,8 +132,9 @@ func Open(path string, freeList *freelist.FreeList, fileCache *filecache.FileCac
 	if err != nil {
 		return nil, err
 	}
-	length, err := file.Seek(0, io.SeekEnd)
+	length, err := trimIncompleteRecord(file)
 	if err != nil {
+		file.Close()
 		return nil, err
 	}
 
@@ -155,6 +156,38 @@ func Open(path string, freeList *freelist.FreeList, fileCache *filecache.FileCac
 	}
 
 	return mp, nil
+}
+
+// trimIncompleteRecord truncates file after its last complete record and
+// returns the resulting length. A crash can leave a partly written record at
+// the end of the last primary file. New records are appended to that file, and
+// GC reads a primary file as a sequence of records, so an incomplete record in
+// the middle would make GC misread, and then delete, the records after it.
+func trimIncompleteRecord(file *os.File) (int64, error) {
+	fi, err := file.Stat()
+	if err != nil {
+		return 0, err
+	}
+	size := fi.Size()
+	sizeBuf := make([]byte, sizePrefixSize)
+	var pos int64
+	for pos+sizePrefixSize <= size {
+		if _, err = file.ReadAt(sizeBuf, pos); err != nil {
+			return 0, err
+		}
+		next := pos + sizePrefixSize + int64(binary.LittleEndian.Uint32(sizeBuf)&^deletedBit)
+		if next > size {
+			break
+		}
+		pos = next
+	}
+	if pos != size {
+		log.Warnw("Removing incomplete record from end of primary file", "file", file.Name(), "at", pos, "bytes", size-pos)
+		if err = file.Truncate(pos); err != nil {
+			return 0, err
+		}
+	}
+	return pos, nil
 }
 
 func (mp *MultihashPrimary) StartGC(freeList *freelist.FreeList, interval, timeLimit time.Duration, updateIndex UpdateIndexFunc) {
@@ -296,12 +329,14 @@ func (cp *MultihashPrimary) flushBlock(key []byte, value []byte) (types.Work, er
 			return 0, fmt.Errorf("creating primary file overwrites existing, check file size, gc and path (maxFileSize=%d) (path=%s)", cp.maxFileSize, primaryPath)
 		}
 
+		// Finish writing the current file before creating the next one, so
+		// that only the last file can end in an incomplete record.
+		if err := cp.writer.Flush(); err != nil {
+			return 0, fmt.Errorf("cannot write to primary file %s: %w", cp.file.Name(), err)
+		}
 		file, err := os.OpenFile(primaryPath, os.O_RDWR|os.O_APPEND|os.O_CREATE, 0o644)
 		if err != nil {
 			return 0, fmt.Errorf("cannot open new primary file %s: %w", primaryPath, err)
-		}
-		if err = cp.writer.Flush(); err != nil {
-			return 0, fmt.Errorf("cannot write to primary file %s: %w", cp.file.Name(), err)
 		}
 
 		cp.file.Close()
